@@ -756,7 +756,20 @@ func (p *printer) cmdSubst(w *ast.CmdSubst) {
 			// "$((" would begin an arithmetic expansion
 			p.space()
 		}
+		// a here-document of the command belongs inside the
+		// substitution, not after the line of the enclosing command
+		// (there may be none)
+		resume := p.suspend()
+		p.push()
 		p.command(w.List[0])
+		if len(p.stack[len(p.stack)-1]) != 0 {
+			p.heredoc()
+			p.newline()
+			p.indent()
+		} else {
+			p.heredoc()
+		}
+		resume()
 	}
 	if w.Dollar {
 		p.w.WriteByte(')')
